@@ -48,7 +48,8 @@ DEFAULT_TMPL = {"time": (0, 0, 0, 0), "date": ("ISO", 2000, 1, 1), "datetime": (
                 "instant": ("ISO", 2000, 1, 1, 0, 0, 0, 0), "annual": (1, 1), "offset": None, "duration": None}
 
 # template configurations: (label, how to derive the pattern, template tuple or a calendar id)
-TEMPLATE_CALENDARS = ("Hebrew Civil", "Hijri Civil-Base15", "Coptic", "Persian Simple", "Julian", "Badi", "Um Al Qura")
+# one calendar of every family, and Gregorian (same rules as ISO, but a different calendar); thorough: every calendar id
+TEMPLATE_CALENDARS = ("Gregorian", "Hebrew Civil", "Hijri Civil-Base15", "Coptic", "Persian Simple", "Julian", "Badi", "Um Al Qura", "Hebrew Scriptural")
 
 
 # ---------------------------------------------------------------------------------------------------------------
@@ -116,11 +117,12 @@ def configs(kind, tier):
     out = [("default", DEFAULT_TMPL[kind])]
     out += list(TEMPLATE_CONFIGS.get(kind, ()))
     if kind == "date":
-        for cid in TEMPLATE_CALENDARS:
+        cids = TEMPLATE_CALENDARS if tier == "quick" else tuple(c for c in calendar_ids() if c != "ISO")
+        for cid in cids:
             out.append(("cal=" + cid, None))
     elif kind == "datetime":
-        out.append(("cal=Hebrew Civil", None))
-        out.append(("cal=Coptic", None))
+        for cid in (("Gregorian", "Hebrew Civil", "Coptic") if tier == "quick" else TEMPLATE_CALENDARS):
+            out.append(("cal=" + cid, None))
     if kind in ("date", "datetime", "instant"):
         out.append(("2dy=79", DEFAULT_TMPL[kind]))      # with_two_digit_year_max(79); only paired with 'yy' patterns
     return out
@@ -747,6 +749,23 @@ def builtin_worker(task):
     label = "builtin:" + attr
     c = Case(kind, text or attr, "", label, pat, DEFAULT_TMPL[kind], spec, safe and not exact, "builtin")
     run_case(acc, c, values, twin)
+    if kind in ("date", "datetime") and spec is not None and safe and hasattr(pat, "with_calendar"):
+        # the same built-in under every template calendar: values of that calendar must come back in that calendar
+        for cid in calendar_ids():
+            if cid == "ISO":
+                continue
+            lab = "%s/cal=%s" % (label, cid)
+            try:
+                p2, tmpl2 = apply_config(kind, pat, "cal=" + cid)
+            except Exception as e:  # noqa: BLE001
+                if exc_origin(e) == "harness":
+                    raise
+                acc.violation("C07/%s/config/unexpected-%s/%s" % (kind, type(e).__name__, exc_site(e)),
+                              "%s.%s.with_calendar(%s) raised %s: %s" % (KCLS[kind].__name__, attr, cid, type(e).__name__, str(e)[:200]),
+                              {"kind": kind, "builtin": attr, "config": lab})
+                continue
+            vals2 = value_alphabet(kind, cid, "cal" in spec.names, True)
+            run_case(acc, Case(kind, text, "", lab, p2, tmpl2, spec, True, "builtin"), vals2, None)
     if exact:
         for v in values:
             try:
@@ -956,7 +975,7 @@ def replay(rec) -> bool:
     label = case.get("config", "default")
     found = {}
     if "builtin" in case or str(label).startswith("builtin:"):
-        attr = case.get("builtin") or label.split(":", 1)[1]
+        attr = (case.get("builtin") or label.split(":", 1)[1]).split("/")[0]
         for k, a, exact in BUILTINS:
             if k == kind and a == attr:
                 acc, hacc = builtin_worker((k, a, exact))
